@@ -352,6 +352,10 @@ def main(argv=None):
     for cse in cases:
         by_group.setdefault((cse["cfg"].get("id"), cse.get("kind")), []).append(cse)
     to_replay, skipped = [], []
+    # groups of concrete regression items first (definite failures of real-library runs), then in item order
+    order_ = sorted(by_group, key=lambda g_: 0 if str(g_[1] or "").startswith(("concrete-regression", "rounding-regression",
+                                                                              "cg-degenerate")) else 1)
+    by_group = {g_: by_group[g_] for g_ in order_}
     for rnd_ in range(PER_GROUP):
         for g, lst in by_group.items():
             if rnd_ < len(lst):
